@@ -318,8 +318,9 @@ def kinds(tree):
 
 
 class Matcher:
-    def __init__(self, a, impl, spec, base_facts=()):
+    def __init__(self, a, impl, spec, base_facts=(), tie_free=False):
         self.a = a
+        self.tie_free = tie_free
         self.written = written_arrays(impl) | written_arrays(spec)
         self.impl, self.spec = impl, spec
         self.base = list(base_facts)
@@ -437,7 +438,11 @@ class Matcher:
                             if not same(a, i_init, s_init, f2):
                                 raise Diff('point', 'carried value %s starts at %s, the reference at %s' % (F, i_init, s_init), a.fn.loc(l.header.term))
                             if not same(a, i_next, s_next, f2):
-                                raise Diff('point', 'carried value %s is updated to %s, the reference to %s' % (F, i_next, s_next), a.fn.loc(l.header.term))
+                                # where the reference leaves the choice among equal candidates free (pivot search), <= selects as well as <
+                                alt = i_next.replace(lambda e_: getattr(e_, 'func', None) == sel and str(e_.args[0]) == 'le',
+                                                     lambda e_: sel(sp.Symbol('lt'), *e_.args[1:])) if self.tie_free and isinstance(i_next, sp.Basic) else None
+                                if alt is None or not same(a, alt, s_next, f2):
+                                    raise Diff('point', 'carried value %s is updated to %s, the reference to %s' % (F, i_next, s_next), a.fn.loc(l.header.term))
                         ok = True
                         break
                     except Diff as d:
@@ -524,6 +529,6 @@ class Matcher:
         raise Diff('shape', 'item %s' % ti[0])
 
 
-def compare(a, impl, spec, facts=()):
+def compare(a, impl, spec, facts=(), tie_free=False):
     """-> number of matched statements; raises Diff"""
-    return Matcher(a, impl, spec, facts).run()
+    return Matcher(a, impl, spec, facts, tie_free=tie_free).run()
